@@ -1,0 +1,55 @@
+//go:build verif
+
+package replica
+
+import (
+	"github.com/lindb/lindb/models"
+)
+
+// Verification exports for property C08 (replication). They add no behaviour: they expose
+// one iteration of partition.replicaLoop for one replicator, and the replicator's
+// unexported channel state, to the in-process correspondence harness.
+
+// VerifC08ReplicaStep runs what one iteration of replicaLoop runs for the replicator of
+// nodeID: `replicator.IsReady() && replicator.Connect()` and then partition.replica.
+// The only difference to the free-running loop: when the replicator is ready and there is
+// nothing to consume, the real loop would wait inside Consume (queue.NotEmpty) until data is
+// appended; the export returns "idle" instead of waiting. Results: "noreplicator",
+// "notready" (IsReady or Connect returned false), "idle", "step" (partition.replica ran).
+func VerifC08ReplicaStep(p Partition, nodeID models.NodeID) string {
+	pp, ok := p.(*partition)
+	if !ok {
+		return "noreplicator"
+	}
+	r, ok := pp.replicators[nodeID]
+	if !ok {
+		return "noreplicator"
+	}
+	if !(r.IsReady() && r.Connect()) {
+		return "notready"
+	}
+	if r.ReplicaIndex() >= r.AppendIndex() {
+		return "idle"
+	}
+	pp.replica(nodeID, r)
+	return "step"
+}
+
+// VerifC08ReplicatorInfo returns the state of the remote replicator of nodeID:
+// models.ReplicatorState as int, whether a replica stream is held, whether the loop is
+// suspended (parked in IsReady waiting for the follower to come online).
+func VerifC08ReplicatorInfo(p Partition, nodeID models.NodeID) (st int, hasStream, suspended, ok bool) {
+	pp, isP := p.(*partition)
+	if !isP {
+		return 0, false, false, false
+	}
+	r, found := pp.replicators[nodeID]
+	if !found {
+		return 0, false, false, false
+	}
+	rr, isRemote := r.(*remoteReplicator)
+	if !isRemote {
+		return 0, false, false, false
+	}
+	return int(rr.State().state), rr.replicaStream != nil, rr.isSuspend.Load(), true
+}
